@@ -99,8 +99,13 @@ def roundtrip_verdict(node, result):
     if "\n" in result or "\r" in result:
         return "newline"
     try:
-        back = ast.parse(result, mode="eval").body
-    except (SyntaxError, ValueError):
+        if isinstance(node, ast.Starred):
+            # a bare starred element is not an expression by itself (the repository's tests unparse one):
+            # it is judged inside a list display, the smallest context in which it can be parsed
+            back = ast.parse("[" + result + "]", mode="eval").body.elts[0]
+        else:
+            back = ast.parse(result, mode="eval").body
+    except (SyntaxError, ValueError, IndexError):
         return "unparseable"
     except (RecursionError, MemoryError):
         return "inconclusive"
